@@ -240,7 +240,7 @@ Proof.
     destruct (nth_error (s_cells (sd_space sd)) (Z.to_nat ci)); [|exact I].
     destruct (nth_error (s_cells (sd_space sd)) (Z.to_nat cj)); exact I.
   - destruct (side_of w s) as [sd|]; [|exact I].
-    destruct (draw_population (st_heap (w_st w)) sd kind arg) as [[|n]|]; exact I.
+    destruct (draw_population (w_xconn w) (st_heap (w_st w)) sd kind arg) as [[|n]|]; exact I.
   - destruct (nth_side (st_sets (w_st w)) s); exact I.
   - destruct (nth_side (st_sets (w_st w)) s) as [ss|] eqn:En; [|exact I].
     destruct (_ && _); [|exact I]. cbn [fst with_st w_st].
@@ -465,7 +465,7 @@ Proof.
     destruct (nth_error (s_cells (sd_space sd)) (Z.to_nat ci)); [|exact S].
     destruct (nth_error (s_cells (sd_space sd)) (Z.to_nat cj)); [|exact S]. destruct S. constructor; assumption.
   - destruct (side_of w s) as [sd|]; [|exact S].
-    destruct (draw_population (st_heap (w_st w)) sd kind arg) as [[|n]|]; exact S.
+    destruct (draw_population (w_xconn w) (st_heap (w_st w)) sd kind arg) as [[|n]|]; exact S.
   - destruct (nth_side (st_sets (w_st w)) s); exact S.
   - destruct (nth_side (st_sets (w_st w)) s) as [ss|]; [|exact S].
     destruct (_ && _); [|exact S]. destruct S. constructor; assumption.
@@ -622,7 +622,7 @@ Proof.
     destruct (nth_error (s_cells (sd_space sd)) (Z.to_nat ci)); [|reflexivity].
     destruct (nth_error (s_cells (sd_space sd)) (Z.to_nat cj)); reflexivity.
   - destruct (side_of w s) as [sd|]; [|reflexivity].
-    destruct (draw_population (st_heap (w_st w)) sd kind arg) as [[|n]|]; reflexivity.
+    destruct (draw_population (w_xconn w) (st_heap (w_st w)) sd kind arg) as [[|n]|]; reflexivity.
   - destruct (nth_side (st_sets (w_st w)) s); reflexivity.
 Qed.
 
@@ -751,6 +751,6 @@ Theorem draw_leaves_world w s kind arg : fst (wstep w (Draw s kind arg)) = w /\ 
 Proof.
   split; cbn [wstep].
   - destruct (side_of w s) as [sd|]; [|reflexivity].
-    destruct (draw_population (st_heap (w_st w)) sd kind arg) as [[|n]|]; reflexivity.
+    destruct (draw_population (w_xconn w) (st_heap (w_st w)) sd kind arg) as [[|n]|]; reflexivity.
   - destruct (nth_side (st_sets (w_st w)) s); reflexivity.
 Qed.
